@@ -352,7 +352,7 @@ func bigNanos(t time.Time) *big.Int {
 // time arithmetic folds to the exact instant, duration or truth value
 func c09Time(o *out, r *rng, n int) {
 	now := time.Unix(1700000000, 123456789).UTC()
-	times := []string{now.Format(time.RFC3339Nano), "2000-01-01T00:00:00Z", "2000-01-01 00:00:00", "2000-01-01", "1970-01-01T00:00:00.000000001Z", "2262-04-11T23:47:16.854775807Z", "1677-09-21T00:12:43.145224192Z", "2020-02-29 12:34:56.789", "9999-12-31T23:59:59Z"}
+	times := []string{now.Format(time.RFC3339Nano), "2000-01-01T00:00:00Z", "2000-01-01 00:00:00", "2000-01-01", "2000-01-01T00:00:00+02:00", "2000-06-01T12:30:00.5-07:00", "1999-12-31T23:00:00-01:00", "1970-01-01T00:00:00.000000001Z", "2262-04-11T23:47:16.854775807Z", "1677-09-21T00:12:43.145224192Z", "2020-02-29 12:34:56.789", "9999-12-31T23:59:59Z"}
 	durs := []time.Duration{0, 1, -1, time.Second, -time.Hour, 90 * time.Minute, math.MaxInt64, math.MinInt64, 7 * 24 * time.Hour}
 	valuer := &influxql.NowValuer{Now: now.In(time.FixedZone("X", 3*3600))}
 	instant := func(s string) *big.Int {
@@ -453,6 +453,12 @@ func c09Time(o *out, r *rng, n int) {
 			check(fmt.Sprintf("'%s' >= '%s'", ts, ts2), fmt.Sprintf("b:%v", c >= 0))
 			check(fmt.Sprintf("'%s' = '%s'", ts, ts2), fmt.Sprintf("b:%v", c == 0))
 			check(fmt.Sprintf("'%s' != '%s'", ts, ts2), fmt.Sprintf("b:%v", c != 0))
+			// now() carries its own zone (the valuer's Now is in +03:00): a zone-less string on the other side is still UTC
+			if nd := new(big.Int).Sub(bigNanos(now), t2); nd.IsInt64() {
+				check(fmt.Sprintf("now() - '%s'", ts2), "d:"+nd.String())
+				check(fmt.Sprintf("(now() - 1h) - '%s'", ts2), "d:"+new(big.Int).Sub(nd, big.NewInt(int64(time.Hour))).String())
+			}
+			check(fmt.Sprintf("now() = '%s'", ts2), fmt.Sprintf("b:%v", bigNanos(now).Cmp(t2) == 0))
 			check(fmt.Sprintf("now() > '%s'", ts2), fmt.Sprintf("b:%v", bigNanos(now).Cmp(t2) > 0))
 			check(fmt.Sprintf("now() >= '%s'", ts2), fmt.Sprintf("b:%v", bigNanos(now).Cmp(t2) >= 0))
 		}
